@@ -30,9 +30,27 @@ inline long &event_count()
   static long n = 0;
   return n;
 }
+// events of the current history; a history that produces an absurd number of events (an endless
+// loop in the code under test that keeps copying / moving) is stopped like a hang, before the log
+// fills the disk
+inline long &history_events()
+{
+  static long n = 0;
+  return n;
+}
+inline long &history_event_cap()
+{
+  static long n = 0; // 0 = no cap
+  return n;
+}
 inline void emit(std::string const &s)
 {
   ++event_count();
+  if (history_event_cap() > 0 && ++history_events() > history_event_cap())
+  {
+    vj::crash_line("hang", 0);
+    _exit(68);
+  }
   vj::line(s);
 }
 inline void ev2(char const *e, long src, long dst)
